@@ -1,6 +1,7 @@
 """C15 — malformed input is reported, with the right line number, not mis-parsed  (iosim, fault enumeration)
 
-Fault = corruption of stored bytes (one violation of one class at one record position) or a torn tail.
+Fault = corruption of stored bytes (one violation of one class at one record position; for the column count also a pair
+of lines whose deviations cancel) or a torn tail.
 The model's strict validator judges the corrupted file: still well-formed => benign (not judged here);
 malformed => every read that touches the affected data must raise, and a FormatException's line number
 must point into the offending record (first line of the record .. the offending line), identically for
@@ -40,6 +41,8 @@ def applicable_classes(fmt):
             out.append("columns_more")
         if any(k == "strand" for _, k in fmt.fields):
             out.append("strand")
+        if fmt.fields[-1][1] != "rest":
+            out.append("columns_two")   # one line with a column more and another with a column fewer (the totals cancel)
     out.append("torn")
     return out
 
@@ -122,6 +125,28 @@ def generate(ctx):
         fs_, fl = fsp[fname]
         bad[fs_ + fl:fs_ + fl] = b"\tq"
         info["field"] = fname
+    elif klass == "columns_two":
+        if n < 2:
+            klass = info["class"] = "columns_more"
+            fs_, fl = fsp[fmt.fields[0][0]]
+            bad[fs_ + fl:fs_ + fl] = b"\tq"
+            info["field"] = fmt.fields[0][0]
+        else:
+            r2 = (r + 1 + tape.draw(n - 1, "record2")) % n
+            more_first = tape.boolean("more_in_earlier")
+            ra, rb = min(r, r2), max(r, r2)
+            r_more, r_fewer = (ra, rb) if more_first else (rb, ra)
+            s2, e2 = fd["spans"][r_fewer][0], fd["spans"][r_fewer][1]
+            tabs = [i for i in range(s2, e2) if data[i:i + 1] == b"\t"]
+            t = tabs[tape.draw(len(tabs), "tab")]
+            bad[t] = ord("_")                      # same length: later offsets stay valid
+            fname = fmt.fields[tape.draw(len(fmt.fields), "field")][0]
+            fsp2 = fd["fspans"][r_more]
+            if fname not in fsp2:
+                fname = fmt.fields[0][0]
+            fs_, fl = fsp2[fname]
+            bad[fs_ + fl:fs_ + fl] = b"\tq"
+            info.update({"record": ra, "record_more": r_more, "record_fewer": r_fewer, "tab": t, "field": fname})
     elif klass == "torn":
         # truncate inside the last two records
         lo = fd["spans"][max(0, n - 2)][0]
@@ -161,7 +186,7 @@ def execute(ctx, sc):
         return
     _, bad_line, reason = res
     # judge only outcomes that fall under the violation classes the property lists
-    want = {"marker": ("marker",), "plus": ("plus",), "columns_fewer": ("columns",), "columns_more": ("columns",),
+    want = {"marker": ("marker",), "plus": ("plus",), "columns_fewer": ("columns",), "columns_more": ("columns",), "columns_two": ("columns",),
             "torn": ("columns",), "nonnumeric": ("field:" + str(sc["fault"].get("field")),),
             "strand": ("field:" + str(sc["fault"].get("field")),)}[klass]
     if reason not in want:
